@@ -546,7 +546,7 @@ def domain_guard(chk, prog, refs=None):
     return n
 
 
-ALL = {"SELF-PURE": lambda chk, prog, files: self_pure(chk, prog, files), "STALE-DERIVED": lambda chk, prog, files: stale_derived(chk, prog, files), "CACHE-KEY": lambda chk, prog, files: cache_key(chk, prog, files), "NO-PARAM-WRITE": lambda chk, prog, files: no_param_write(chk, prog, files), "ZERO-AS-MISSING": lambda chk, prog, files: zero_as_missing(chk, prog, files), "POSE-DIV": lambda chk, prog, files: pose_div(chk, prog, files), "UNIT-GUARD": lambda chk, prog, files: unit_guard(chk, prog, files), "PARAM-DEAD": param_dead, "SWAPPED-ARGS": swapped_args, "METHOD-TRUTH": method_truth, "VIEW-SWAP": view_swap,
+ALL = {"UNDEFINED-NAME": lambda chk, prog, files: possibly_undefined(chk, prog, files), "SELF-PURE": lambda chk, prog, files: self_pure(chk, prog, files), "STALE-DERIVED": lambda chk, prog, files: stale_derived(chk, prog, files), "CACHE-KEY": lambda chk, prog, files: cache_key(chk, prog, files), "NO-PARAM-WRITE": lambda chk, prog, files: no_param_write(chk, prog, files), "ZERO-AS-MISSING": lambda chk, prog, files: zero_as_missing(chk, prog, files), "POSE-DIV": lambda chk, prog, files: pose_div(chk, prog, files), "UNIT-GUARD": lambda chk, prog, files: unit_guard(chk, prog, files), "PARAM-DEAD": param_dead, "SWAPPED-ARGS": swapped_args, "METHOD-TRUTH": method_truth, "VIEW-SWAP": view_swap,
        "MODULE-STATE": module_state, "SHADOW-REBIND": shadow_rebind, "CASE-MIXED": case_mixed, "INT-ALLOC": int_alloc}
 
 
@@ -608,6 +608,8 @@ def _lint_fixture_zero(rate: float = None):
 def lint_fixture_write(vec: _np.ndarray):
     vec /= 2.0
     return vec
+def _lint_fixture_undefined(n):
+    return n + never_bound_anywhere
 def _lint_fixture_alloc(p):
     out = _np.zeros_like(p)
     out[0] = p[0]/3
@@ -615,7 +617,7 @@ def _lint_fixture_alloc(p):
 '''
 FIXTURE_HOST = "ahrs/common/frames.py"
 # rule -> properties that own it (None = every property, on its anchor files)
-OWNERS = {"SELF-PURE": {"C01", "C02", "C07", "C09", "C10", "C11", "C12", "C18", "C20"}, "STALE-DERIVED": None, "CACHE-KEY": None, "NO-PARAM-WRITE": {"C01", "C02", "C03", "C04", "C06", "C07", "C09", "C10", "C12", "C13", "C18", "C20"}, "ZERO-AS-MISSING": None, "POSE-DIV": {"C03", "C04", "C05", "C13", "C02", "C07"}, "UNIT-GUARD": None, "PARAM-DEAD": None, "SWAPPED-ARGS": None, "METHOD-TRUTH": None, "VIEW-SWAP": None, "INT-ALLOC": None, "CASE-MIXED": None,
+OWNERS = {"UNDEFINED-NAME": None, "SELF-PURE": {"C01", "C02", "C07", "C09", "C10", "C11", "C12", "C18", "C20"}, "STALE-DERIVED": None, "CACHE-KEY": None, "NO-PARAM-WRITE": {"C01", "C02", "C03", "C04", "C06", "C07", "C09", "C10", "C12", "C13", "C18", "C20"}, "ZERO-AS-MISSING": None, "POSE-DIV": {"C03", "C04", "C05", "C13", "C02", "C07"}, "UNIT-GUARD": None, "PARAM-DEAD": None, "SWAPPED-ARGS": None, "METHOD-TRUTH": None, "VIEW-SWAP": None, "INT-ALLOC": None, "CASE-MIXED": None,
           "SHADOW-REBIND": None,
           # process-wide hidden state only contradicts properties that promise repeatability / isolation / history independence
           "MODULE-STATE": {"C06", "C15", "C19"}}
@@ -1174,4 +1176,68 @@ def self_pure(chk, prog, files):
                                         "%s is not part of the in-place API but writes the object's own storage self.%s: a second call sees different data" % (f.qname, ph[1]),
                                         line=inner.get("line"))
     chk.counts["SELF-PURE.methods"] = chk.counts.get("SELF-PURE.methods", 0) + n
+    return n
+
+
+# -------------------------------------------------------------------------------------------------------------------- RD
+def possibly_undefined(chk, prog, files):
+    """UNDEFINED-NAME: a name read in a function that is bound nowhere -- not a parameter, never assigned / imported / bound by a loop, `with`, `except`
+    or comprehension anywhere in the function or an enclosing one, not a module-level name, not a builtin.  Reading it raises NameError on every path that
+    reaches it (typically the only definition was deleted or renamed).  Path-sensitive `may be undefined` reasoning is deliberately left to the
+    property-specific RD rule (frames.py): infeasible paths make it alarm on correct code."""
+    import builtins
+    n = 0
+    for rel in sorted(files):
+        m = prog.modules.get(rel)
+        if m is None:
+            continue
+        module_names = set(m.funcs) | set(m.classes) | set(m.assigns) | set(m.imports) | set(dir(builtins)) | {"__name__", "__file__", "__doc__"}
+        for s_ in m.tree.body:      # names bound by other top-level statements (for / with / try / tuple targets ...)
+            for x in ast.walk(s_):
+                if isinstance(x, ast.Name) and isinstance(x.ctx, ast.Store):
+                    module_names.add(x.id)
+                if isinstance(x, ast.alias):
+                    module_names.add((x.asname or x.name).split(".")[0])
+                if isinstance(x, (ast.FunctionDef, ast.ClassDef)) and x in m.tree.body:
+                    module_names.add(x.name)
+
+        def scan(fn, outer):
+            nonlocal n
+            bound = set(outer)
+            a = fn.args
+            for p in a.posonlyargs + a.args + a.kwonlyargs:
+                bound.add(p.arg)
+            if a.vararg:
+                bound.add(a.vararg.arg)
+            if a.kwarg:
+                bound.add(a.kwarg.arg)
+            inner = []
+            for x in ast.walk(fn):
+                if x is fn:
+                    continue
+                if isinstance(x, ast.Name) and isinstance(x.ctx, (ast.Store, ast.Del)):
+                    bound.add(x.id)
+                elif isinstance(x, ast.alias):
+                    bound.add((x.asname or x.name).split(".")[0])
+                elif isinstance(x, ast.ExceptHandler) and x.name:
+                    bound.add(x.name)
+                elif isinstance(x, (ast.FunctionDef, ast.ClassDef, ast.AsyncFunctionDef)):
+                    bound.add(x.name)
+                elif isinstance(x, (ast.Global, ast.Nonlocal)):
+                    bound.update(x.names)
+                elif isinstance(x, ast.MatchAs) and x.name:
+                    bound.add(x.name)
+            n += 1
+            for x in ast.walk(fn):
+                if isinstance(x, ast.Name) and isinstance(x.ctx, ast.Load) and x.id not in bound and x.id not in module_names:
+                    yield x
+        for f in _funcs(prog, [rel]):
+            seen = set()
+            for x in scan(f.node, set()):
+                if x.id in seen:
+                    continue
+                seen.add(x.id)
+                chk.finding("UNDEFINED-NAME", rel, f.qname, "`%s` is bound nowhere" % x.id,
+                            "`%s` is read but no statement of the function (nor the module) binds it: NameError whenever this line runs" % x.id, line=x.lineno)
+    chk.counts["UNDEFINED-NAME.functions"] = chk.counts.get("UNDEFINED-NAME.functions", 0) + n
     return n
